@@ -12,21 +12,22 @@ EXTENDS SegDBOps, TLC, Json
 Trace == ndJsonDeserialize("trace.ndjson")
 
 VARIABLES store, nq,
+          snap,     \* <<>> or <<store, nq>> at the begin of the open path-DB transaction
           rl,       \* line of the reset record of the current history (it carries the pool)
           failed, l
-vars == <<store, nq, rl, failed, l>>
+vars == <<store, nq, snap, rl, failed, l>>
 R == Trace[l]
 pool == Trace[rl].pool
 
-Init == store = {} /\ nq = {} /\ rl = 1 /\ failed = FALSE /\ l = 1
+Init == store = {} /\ nq = {} /\ snap = <<>> /\ rl = 1 /\ failed = FALSE /\ l = 1
 
 Bad(key) == /\ PrintT(<<"VERIF-BAD", l, key>>)
             /\ failed' = TRUE
-            /\ UNCHANGED <<store, nq, rl>>
+            /\ UNCHANGED <<store, nq, snap, rl>>
 
-Keep == UNCHANGED <<store, nq, rl, failed>>
+Keep == UNCHANGED <<store, nq, snap, rl, failed>>
 
-Reset == /\ store' = {} /\ nq' = {} /\ rl' = l /\ failed' = FALSE
+Reset == /\ store' = {} /\ nq' = {} /\ snap' = <<>> /\ rl' = l /\ failed' = FALSE
 
 ToSets(ss) == {Range(ss[i]) : i \in 1..Len(ss)}
 ToTuples(ss) == {<<ss[i][1], ss[i][2]>> : i \in 1..Len(ss)}
@@ -45,7 +46,7 @@ PIns ==
            ELSE Bad("pins:error,want=" \o want))
     ELSE IF got # want THEN Bad("pins:stats=" \o got \o ",want=" \o want)
     ELSE /\ store' = PInsert(store, pool, R.p, R.type, Range(R.groups))
-         /\ UNCHANGED <<nq, rl, failed>>
+         /\ UNCHANGED <<nq, snap, rl, failed>>
 
 PFilter == [ids |-> Range(R.f.ids), types |-> Range(R.f.types), groups |-> Range(R.f.groups),
             intfs |-> ToTuples(R.f.intfs), starts |-> Range(R.f.starts), ends |-> Range(R.f.ends)]
@@ -81,7 +82,7 @@ PGetEv ==
 
 PDel == IF R.err # 0 THEN Bad(R.ev \o ":error")
         ELSE /\ store' = DeletePrefix(store, pool, R.pre)
-             /\ UNCHANGED <<nq, rl, failed>>
+             /\ UNCHANGED <<nq, snap, rl, failed>>
 
 ExpEv(tag) ==
     LET ex == Expired(store, pool, R.now) IN
@@ -90,7 +91,7 @@ ExpEv(tag) ==
         Bad(tag \o ":deleted=" \o S(R.ret) \o ",expired=" \o S(Cardinality(ex)) \o
             (IF \E e \in store : pool[e.p].exp = R.now THEN ",boundary" ELSE ""))
     ELSE /\ store' = store \ ex
-         /\ UNCHANGED <<nq, rl, failed>>
+         /\ UNCHANGED <<nq, snap, rl, failed>>
 
 NQIns ==
     LET acc == NQAccepts(nq, R.src, R.dst, R.t) IN
@@ -100,7 +101,7 @@ NQIns ==
               ELSE IF \E x \in NQStored(nq, R.src, R.dst) : x.t = R.t THEN ",equal"
               ELSE IF acc THEN ",newer" ELSE ",older"))
     ELSE /\ nq' = NQInsert(nq, R.src, R.dst, R.t)
-         /\ UNCHANGED <<store, rl, failed>>
+         /\ UNCHANGED <<store, snap, rl, failed>>
 
 NQGet ==
     LET st == NQStored(nq, R.src, R.dst) IN
@@ -109,6 +110,19 @@ NQGet ==
     ELSE IF R.has /\ \E x \in st : x.t # R.t THEN
         Bad("nqget:time-" \o (IF \E x \in st : R.t < x.t THEN "decreased" ELSE "not-stored"))
     ELSE Keep
+
+-----------------------------------------------------------------------------
+(* path DB transactions: operations between txb and txc/txr go through the transaction and see its own
+   writes; a rollback must leave the store (and the next-query times) as they were at txb *)
+TxEv ==
+    IF R.err # 0 THEN Bad(R.ev \o ":error")
+    ELSE CASE R.ev = "txb" -> IF snap # <<>> THEN Bad("txb:harness-nested-transaction")
+                              ELSE snap' = <<store, nq>> /\ UNCHANGED <<store, nq, rl, failed>>
+           [] R.ev = "txc" -> IF snap = <<>> THEN Bad("txc:harness-no-transaction")
+                              ELSE snap' = <<>> /\ UNCHANGED <<store, nq, rl, failed>>
+           [] R.ev = "txr" -> IF snap = <<>> THEN Bad("txr:harness-no-transaction")
+                              ELSE /\ store' = snap[1] /\ nq' = snap[2] /\ snap' = <<>>
+                                   /\ UNCHANGED <<rl, failed>>
 
 -----------------------------------------------------------------------------
 (* beacon DB *)
@@ -121,7 +135,7 @@ BIns ==
            ELSE Bad("bins:error,want=" \o want))
     ELSE IF got # want \/ R.flt # 0 THEN Bad("bins:stats=" \o got \o ",want=" \o want)
     ELSE /\ store' = BInsert(store, pool, R.p, R.inIf, Range(R.usage))
-         /\ UNCHANGED <<nq, rl, failed>>
+         /\ UNCHANGED <<nq, snap, rl, failed>>
 
 AsEntry(x) == [p |-> x.p, types |-> {}, groups |-> {}, inIf |-> x.inIf, usage |-> Range(x.usage)]
 
@@ -184,6 +198,7 @@ Step == /\ l <= Len(Trace)
                   [] R.ev = "pexp" -> ExpEv("pexp")
                   [] R.ev = "nqins" -> NQIns
                   [] R.ev = "nqget" -> NQGet
+                  [] R.ev \in {"txb", "txc", "txr"} -> TxEv
                   [] R.ev = "bins" -> BIns
                   [] R.ev = "bget" -> BGetEv
                   [] R.ev = "bcand" -> BCand
